@@ -238,6 +238,22 @@ theorem sanitizeJoin_dir_base (d f : Text) (hf : cleanRel f = true) (hd : cleanR
     have : d.isPrefixOf f = true := by rw [e]; simp [List.isPrefixOf_iff_prefix]
     simp [this]
 
+/-- the ingredients of `sanitizeJoin_dir_base`, independent of how `sanitizeArchivePath` tests containment
+(`strings.HasPrefix(v, Clean(d))` in the model; `v == Clean(d) || HasPrefix(v, Clean(d)+"/")` is implied
+just the same): the join is the path, the directory is clean, the path is the directory, "/", a name -/
+theorem pathJoin2_dir_base (d f : Text) (hf : cleanRel f = true) (hd : cleanRel d = true) (h : d = pathDir f) :
+    pathJoin2 d (pathBase f) = f ∧ pathClean d = d ∧ ∃ b, f = d ++ '/' :: b := by
+  rcases cleanRel_cases f hf with ⟨_, hdir, _⟩ | ⟨d', b, _, _, e, hdir, hb⟩
+  · rw [hdir] at h
+    exact absurd h (cleanRel_ne_dot d hd)
+  · rw [hdir] at h
+    subst h
+    have hne : d ≠ [] := by
+      intro e0; subst e0; exact absurd hd (by decide)
+    refine ⟨?_, pathClean_cleanRel d hd, b, e⟩
+    simp only [pathJoin2, hne, ne_eq, not_false_eq_true, if_true, hb]
+    rw [← e, pathClean_cleanRel f hf]
+
 theorem pathBase_subset (f : Text) (h : cleanRel f = true) : ∀ c ∈ pathBase f, c ∈ f := by
   rcases cleanRel_cases f h with ⟨_, _, hb⟩ | ⟨d, b, _, _, e, _, hb⟩
   · rw [hb]; exact fun _ hc => hc
